@@ -6,6 +6,8 @@ pub mod c03;
 pub mod c04;
 pub mod c05;
 pub mod c06;
+pub mod c13;
+pub mod c14;
 pub mod c15;
 pub mod common;
 
@@ -18,6 +20,8 @@ pub fn clauses(property: &str) -> Vec<Clause> {
         "C04" => c04::clauses(),
         "C05" => c05::clauses(),
         "C06" => c06::clauses(),
+        "C13" => c13::clauses(),
+        "C14" => c14::clauses(),
         "C15" => c15::clauses(),
         _ => vec![],
     }
@@ -30,6 +34,8 @@ pub fn property_rule(property: &str) -> String {
         "C04" => "Sma / Ema / Alma: span bounds, constant reproduction, monotonicity, affine equivariance, EMA recurrence, ALMA kernel definition".into(),
         "C05" => "Rsi / MyRSI at Q and f64 vs gains and losses over the N most recent values; negation relation".into(),
         "C06" => "CTI / NET / CoG at Q and f64 vs Pearson r, Kendall tau, CoG formula on full windows; negation and rank-invariance relations".into(),
+        "C13" => "WelfordRolling / Drawdown / LnReturn vs batch definitions over the whole history, exact and f64, long streams".into(),
+        "C14" => "combinators and pure functions vs the operation applied to stand-alone twins of their children, bit-exact; history independence".into(),
         "C15" => "no unwind out of update()/last() for any constructed view, both cargo profiles".into(),
         _ => String::new(),
     }
@@ -61,6 +67,8 @@ pub fn property_assumptions(property: &str) -> Vec<String> {
             v.push("the statement's 'CTI is +1 on any strictly increasing window' is asserted only through Pearson's r (= +1 exactly on arithmetic progressions): the check never demands more than the definition in the same sentence".into());
             v.push("partial windows: values are checked when reported (NET, CoG) or left open (CTI); f64 leg exempts windows whose spread (CTI) or sum (CoG) is below 1e-3 of their magnitude".into());
         }
+        "C13" => v.push("long-stream leg: inputs k/64 with integer k <= 2^21, so sum k and sum k^2 are exact i128 accumulators; 'any length' is explored to 1e6 values".into()),
+        "C14" => v.push("twins are legitimate stand-ins for the children by C17 (determinism); a case in which the divisor child outputs 0 or a NaN reaches Min/Max is outside the domain (discarded, counted)".into()),
         "C15" => v.push("'moderate magnitude' = 0 or 1e-3 <= |x| <= 1e6; f32 legs use |x| <= 32768; positive raw input wherever Drawdown/LnReturn/Divide's divisor need it".into()),
         _ => {}
     }
